@@ -44,17 +44,24 @@ type shape struct {
 	name    string
 	keys    []string // key columns in order: "ts" and/or "k"
 	allowsW bool
+	// noStar: every aggregate is over the nullable column v (no COUNT(*), whose argument is
+	// never NULL): a group whose v is NULL in every record must still appear, as (key, NULLs)
+	noStar bool
 }
 
 var shapes = []shape{
-	{"tk", []string{"ts", "k"}, true},
-	{"kt", []string{"k", "ts"}, true},
-	{"t", []string{"ts"}, true},
-	{"k", []string{"k"}, false},
+	{"tk", []string{"ts", "k"}, true, false},
+	{"kt", []string{"k", "ts"}, true, false},
+	{"t", []string{"ts"}, true, false},
+	{"k", []string{"k"}, false, false},
 }
 
 func (sh shape) sql(cfg trigh.Config) string {
-	return "SELECT " + strings.Join(sh.keys, ", ") + ", COUNT(*) AS c, COUNT(v) AS cv, SUM(v) AS s, MIN(v) AS mn, MAX(v) AS mx FROM m.t GROUP BY " +
+	star := ", COUNT(*) AS c"
+	if sh.noStar {
+		star = ""
+	}
+	return "SELECT " + strings.Join(sh.keys, ", ") + star + ", COUNT(v) AS cv, SUM(v) AS s, MIN(v) AS mn, MAX(v) AS mx FROM m.t GROUP BY " +
 		strings.Join(sh.keys, ", ") + cfg.Clause()
 }
 
@@ -292,7 +299,11 @@ func reference(sh shape, evs []ev) (nodeh.Multiset, map[string]string) {
 		}
 		kk := nodeh.RowKey(vals)
 		c, cv, s, mn, mx := gr.agg.Values()
-		vals = append(vals, c, cv, s, mn, mx)
+		if sh.noStar {
+			vals = append(vals, cv, s, mn, mx)
+		} else {
+			vals = append(vals, c, cv, s, mn, mx)
+		}
 		rkey := nodeh.RowKey(vals)
 		out.Add(rkey, 1)
 		keyOf[rkey] = kk
@@ -368,7 +379,11 @@ func (sh shape) lookupSQL(cfg trigh.Config) string {
 	for i, k := range sh.keys {
 		cols[i] = "g." + k + " AS " + k
 	}
-	return "SELECT o.id AS id, " + strings.Join(cols, ", ") + ", g.c AS c, g.cv AS cv, g.s AS s, g.mn AS mn, g.mx AS mx FROM m.o o LOOKUP JOIN (" + sh.sql(cfg) + ") g"
+	star := ", g.c AS c"
+	if sh.noStar {
+		star = ""
+	}
+	return "SELECT o.id AS id, " + strings.Join(cols, ", ") + star + ", g.cv AS cv, g.s AS s, g.mn AS mn, g.mx AS mx FROM m.o o LOOKUP JOIN (" + sh.sql(cfg) + ") g"
 }
 
 // runIn plans the query once and judges every execution of the same materialized plan with the
@@ -827,12 +842,19 @@ func Run(c *core.Ctx) core.FinishOpts {
 			{r(1, "a", &five, false), r(1, "a", &five, true), r(1, "a", nil, false), r(1, "a", nil, false), r(1, "a", nil, false), r(1, "a", nil, false)},
 		}
 		for wi, w := range ws {
-			for _, sh := range shapes {
-				for _, cfg := range configs {
-					if cfg.Has('W') && !sh.allowsW {
-						continue
+			for _, sh0 := range shapes {
+				for _, noStar := range []bool{false, true} {
+					sh := sh0
+					sh.noStar = noStar
+					if noStar {
+						sh.name += "-nostar"
 					}
-					cases = append(cases, inCase{id: fmt.Sprintf("in-nullwit/%d/%s/%s", wi, sh.name, cfg.Name()), cfg: cfg, sh: sh, evs: w, optimize: true})
+					for _, cfg := range configs {
+						if cfg.Has('W') && !sh.allowsW {
+							continue
+						}
+						cases = append(cases, inCase{id: fmt.Sprintf("in-nullwit/%d/%s/%s", wi, sh.name, cfg.Name()), cfg: cfg, sh: sh, evs: w, optimize: true})
+					}
 				}
 			}
 		}
@@ -851,6 +873,10 @@ func Run(c *core.Ctx) core.FinishOpts {
 		}
 		locMode := []int{0, 1, 1, 2, 2}[rng.Intn(5)]
 		nullMode := s % 2 // every second stream carries NULL-only groups and NULL refills
+		if s%4 == 1 {
+			sh.noStar = true // ... and half of those are grouped without COUNT(*)
+			sh.name += "-nostar"
+		}
 		evs := genStream(rng, 8+rng.Intn(c.Pick(25, 40)), locMode, nullMode)
 		alt := genStream(rng, 6+rng.Intn(14), locMode, nullMode)
 		optimize := rng.Intn(4) != 0
